@@ -422,6 +422,20 @@ Definition journal_tx (p : pool) (from : N) (t : tx) : pool :=
   | None => p
   end.
 
+(* the pool-full branch of add: (pool, Some error) or (pool after the evictions, None) *)
+Definition make_room (o1 : list N) (q : pool) (t : tx) (is_local : bool) : pool * option err :=
+  let cfg := p_cfg q in
+  if c_gslots cfg + c_gqueue cfg <? all_slots (p_all q) + num_slots t then
+    let '(q1, under) := if is_local then (q, false) else priced_underpriced q o1 t in
+    if negb is_local && under then (q1, Some EUnderpriced) else
+    if c_gslots cfg / 4 <? p_changes q1 then (q1, Some EPoolFull) else
+    let '(q2, drop, success) :=
+        priced_discard q1 o1 (all_slots (p_all q1) - (c_gslots cfg + c_gqueue cfg) + num_slots t) is_local in
+    if negb is_local && negb success then (q2, Some EPoolFull) else
+    let q3 := set_changes q2 (p_changes q2 + Z.of_nat (length drop)) in
+    (remove_txs q3 drop false, None)
+  else (q, None).
+
 (* (pool, replaced, error) *)
 Definition add (o1 : list N) (p : pool) (t : tx) (local : bool) : pool * bool * err :=
   match all_get (p_all p) (t_id t) with
@@ -431,18 +445,7 @@ Definition add (o1 : list N) (p : pool) (t : tx) (local : bool) : pool * bool * 
     match validate_tx p t is_local with
     | EOk =>
       let cfg := p_cfg p in
-      let full (q : pool) : pool * option err :=
-        if c_gslots cfg + c_gqueue cfg <? all_slots (p_all q) + num_slots t then
-          let '(q1, under) := if is_local then (q, false) else priced_underpriced q o1 t in
-          if negb is_local && under then (q1, Some EUnderpriced) else
-          if c_gslots cfg / 4 <? p_changes q1 then (q1, Some EPoolFull) else
-          let '(q2, drop, success) :=
-              priced_discard q1 o1 (all_slots (p_all q1) - (c_gslots cfg + c_gqueue cfg) + num_slots t) is_local in
-          if negb is_local && negb success then (q2, Some EPoolFull) else
-          let q3 := set_changes q2 (p_changes q2 + Z.of_nat (length drop)) in
-          (remove_txs q3 drop false, None)
-        else (q, None) in
-      match full p with
+      match make_room o1 p t is_local with
       | (p1, Some e) => (p1, false, e)
       | (p1, None) =>
         let from := sender t in
